@@ -168,6 +168,8 @@ func runC16(c *Ctx) {
 	defer c16SelectorCopy(c)
 	defer c16FallbackScope(c)
 	defer c16MatcherOnOwnLabel(c)
+	defer c16KeyIsTheText(c, "C16-R3")
+	defer c16AlertMetricNames(c, chk)
 	// (a) pointers to a providing entry are set only under a kind-specific, error-free, name-equality guard
 	pmC := parentMap(chk.Decl.Body)
 	nProd := 0
@@ -531,4 +533,124 @@ func c16ProbesWithoutOffset(c *Ctx) {
 		return true
 	})
 	c.Check(n >= 3, "C16-R1", "getNonFallbackSelectors:selector append sites enumerated", gs.Decl.Pos(), itoa(n), "fewer than confirmed ("+itoa(n)+")")
+}
+
+// c16KeyIsTheText: a cached answer belongs to one expression text. Every
+// CacheKey method of a query type that carries the expression (`expr` field)
+// hashes that field as it is — not a rendering of it (String(), trimmed,
+// lower-cased, white space collapsed). Two selectors that differ only inside a
+// quoted label value otherwise share one cached count, and a series that is
+// there inherits the "0 series" of one that never was.
+func c16KeyIsTheText(c *Ctx, R string) {
+	prom := c.P.Pkg("internal/promapi")
+	if prom == nil {
+		return
+	}
+	info := prom.TypesInfo
+	n := 0
+	for _, fi := range c.P.AllFuncs() {
+		if fi.Pkg != prom || fi.Decl.Body == nil || fi.Obj.Name() != "CacheKey" || fi.Decl.Recv == nil {
+			continue
+		}
+		sig := fi.Obj.Type().(*types.Signature)
+		named := namedOf(sig.Recv().Type())
+		if named == nil {
+			continue
+		}
+		st, ok := named.Underlying().(*types.Struct)
+		if !ok {
+			continue
+		}
+		hasExpr := false
+		for i := 0; i < st.NumFields(); i++ {
+			if st.Field(i).Name() == "expr" {
+				hasExpr = true
+			}
+		}
+		if !hasExpr {
+			continue
+		}
+		n++
+		owner := relPkg(named.Obj().Pkg().Path()) + "." + named.Obj().Name()
+		direct := false
+		ast.Inspect(fi.Decl.Body, func(nd ast.Node) bool {
+			call, isCall := nd.(*ast.CallExpr)
+			if !isCall || !isCallTo(info, call, "internal/promapi.hash") {
+				return true
+			}
+			for _, a := range call.Args {
+				if fieldSel(info, a, owner, "expr") {
+					direct = true
+				}
+			}
+			return true
+		})
+		c.Check(direct, R, named.Obj().Name()+".CacheKey hashes the expression text itself", fi.Decl.Pos(), "q.expr",
+			"the cache key of "+named.Obj().Name()+" is not computed from the `expr` field as it is (a rendering of it, or nothing, is hashed): two different expressions can share one cached answer, so a selector whose series exist is answered with the empty result of another one and reported as missing (or the other way round)")
+	}
+	c.Check(n >= 2, R, "CacheKey methods of expression queries enumerated", token.NoPos, itoa(n), "fewer than 2 query types with an expr field")
+}
+
+// c16AlertMetricNames: the shortcut for alert metrics (no query, producers are
+// alerting rules) is taken for the two metric names Prometheus itself writes,
+// compared by equality. In SeriesCheck.Check the selector's metric name is
+// only ever compared with `==`/`!=`; a prefix, suffix, substring or
+// case-insensitive test on it lets an ordinary metric (ALERTS_dropped_total)
+// into the shortcut, and a series that never existed is not reported.
+func c16AlertMetricNames(c *Ctx, chk *FuncInfo) {
+	R := "C16-R1"
+	if chk == nil {
+		return
+	}
+	info := chk.Pkg.TypesInfo
+	// variables that hold the metric name
+	names := map[types.Object]bool{}
+	ast.Inspect(chk.Decl.Body, func(nd ast.Node) bool {
+		if as, ok := nd.(*ast.AssignStmt); ok && len(as.Lhs) == len(as.Rhs) {
+			for i, r := range as.Rhs {
+				if sel, isSel := ast.Unparen(r).(*ast.SelectorExpr); isSel && sel.Sel.Name == "Name" && strings.HasSuffix(fieldOwner(info, sel), "parser.VectorSelector") {
+					if o := objOf(info, as.Lhs[i]); o != nil {
+						names[o] = true
+					}
+				}
+			}
+		}
+		return true
+	})
+	isName := func(e ast.Expr) bool {
+		e = ast.Unparen(e)
+		if o := objOf(info, e); o != nil && names[o] {
+			return true
+		}
+		if sel, isSel := e.(*ast.SelectorExpr); isSel && sel.Sel.Name == "Name" && strings.HasSuffix(fieldOwner(info, sel), "parser.VectorSelector") {
+			return true
+		}
+		return false
+	}
+	nEq, bad := 0, ""
+	badPos := chk.Decl.Pos()
+	ast.Inspect(chk.Decl.Body, func(nd ast.Node) bool {
+		switch x := nd.(type) {
+		case *ast.BinaryExpr:
+			if (x.Op == token.EQL || x.Op == token.NEQ) && (isName(x.X) || isName(x.Y)) {
+				nEq++
+			}
+		case *ast.CallExpr:
+			fn := Callee(info, x)
+			if fn == nil || fn.Pkg() == nil {
+				return true
+			}
+			if pth := fn.Pkg().Path(); pth != "strings" && pth != "regexp" && pth != "path" && pth != "path/filepath" {
+				return true
+			}
+			for _, a := range x.Args {
+				if isName(a) {
+					bad, badPos = exprStr(x), x.Pos()
+				}
+			}
+		}
+		return true
+	})
+	c.Check(bad == "" && nEq >= 2, R, "Check:the metric name is only compared by equality", badPos, itoa(nEq)+" equality tests",
+		"the selector's metric name is tested with `"+bad+"` (or is no longer compared with the alert metric names at all): a metric that merely resembles ALERTS / ALERTS_FOR_STATE takes the alert shortcut and is never looked up, so a series that was never present is not reported")
 }
